@@ -7,6 +7,7 @@ output, stale readers, chains, a peer block with known and unknown transactions,
 a spender) are replayed on the real code; accept / refuse classes and the pool are validated after every step."""
 import vp
 import xstate_common as xc
+import tracecheck
 
 
 def check(run):
@@ -15,10 +16,20 @@ def check(run):
     run.tlc_mc("XState.tla", "MC_XState.cfg" if quick else "MC_XState_thorough.cfg", timeout=3000)
     if not quick:
         run.tlc_mc("XState.tla", "MC_XState_kv.cfg", timeout=3000)
-    conflict = '{"t1", "t2", "t3", "t6", "t4", "w1", "w2", "w3", "w4", "c1", "p11", "p1", "p2", "p3", "p4", "p5", "p7", "p6", "p9", "p10"}'
+    conflict = '{"t1", "t2", "t3", "t6", "t4", "w1", "w2", "w3", "w4", "c1", "p11", "x1", "x2", "p1", "p2", "p3", "p4", "p5", "p7", "p6", "p9", "p10"}'
     plans = [dict(num=120, ops=20, txs=conflict)] if quick else [dict(num=1500, ops=20, txs=conflict), dict(num=500, ops=30, maxb=9)]
     groups = xc.gen(run, plans)
     xc.replay_validate(run, groups)
+    # the ledger's part of the property: a transaction that is on the main chain already is not confirmed again in a block
+    # that joins the main chain (ErrTxDuplicated, at the tip and below the fork point of a trunk switch)
+    lb = []
+    if not run.violations:
+        run.tlc_mc("Ledger.tla", "MC_Ledger.cfg", timeout=3000)
+        lb = run.tlc_gen("Gen_Ledger.tla", "Gen_Ledger.cfg", 120 if quick else 1200, 18, name="genL", seed=run.seed + 50,
+                         consts={"MaxBlocks": 9, "NTx": 3, "MaxTxPerBlock": 2, "MaxOps": 16})
+        tracecheck.replay_and_validate(run, lb, driver="ledger-replay", driver_args=["-ntx", "3"],
+                                       trace_module="Trace_Ledger.tla", trace_cfg="Trace_Ledger.cfg", name="L")
+    lops = [o for b in lb for o in b]
     behs = [b for _, bs, _ in groups for b in bs]
     st = xc.stats(behs)
     run.samples = behs[:2]
@@ -27,4 +38,5 @@ def check(run):
                         "ErrRWSetInvalid / ErrDoubleSpent / ErrAlreadyInUnconfirmed = refused-as-not-current; any other refusal "
                         "is class 'other' (never produced by the generated transactions on the unchanged tree)"]
     run.finish(require={"admitted": (st["submit:admit"], 40), "refused_stale": (st["submit:stale"], 20),
-                        "plays_with_pool": (st["play:ok"], 10), "walks_ok": (st["walk:ok"], 20), "mines": (st["mine:ok"], 5)})
+                        "plays_with_pool": (st["play:ok"], 10), "walks_ok": (st["walk:ok"], 20), "mines": (st["mine:ok"], 5),
+                        "ledger_refused_repeated_transaction": (sum(1 for o in lops if o["op"] == "confirm" and o.get("res") == "fail"), 5)})
